@@ -426,7 +426,7 @@ theorem dispatch_auto (v : Nat) :
     have b : ¬ (0x0300 ≤ v ∧ v ≤ 0x0303) := by omega
     simp [dispatch, versionGMSSL, versionSSL30, versionTLS12, a, b]
 
-/-- TLS-only mode: what `mutualVersion` admits is served by the TLS code: 0x0300..0x0303 as offered, anything
+/-- TLS-only mode: what `mutualVersion` lets through is served by the TLS code: 0x0300..0x0303 as offered, anything
     higher as TLS 1.2 — and 0x0101 as "version 0x0101" (the default `minVersion` is the GMSSL number). -/
 theorem dispatch_tlsOnly (v : Nat) :
     dispatch .tlsOnly v =
@@ -448,7 +448,7 @@ theorem dispatch_tlsOnly (v : Nat) :
     have b : ¬ (0x0300 ≤ v ∧ v ≤ 0x0303) := by omega
     simp [dispatch, mv_high v h, a, b, h]
 
-/-- GMSSL-only mode: the same versions are admitted, all served by the GMSSL code (a hello above 0x0101 gets a
+/-- GMSSL-only mode: the same versions are let through, all served by the GMSSL code (a hello above 0x0101 gets a
     ServerHello with a TLS version number and a GMSSL suite, which no conforming client continues). -/
 theorem dispatch_gmOnly (v : Nat) :
     dispatch .gmOnly v =
